@@ -58,8 +58,8 @@ Positions == <<"stmt", "let", "left", "right", "deep", "neg", "arg1of1", "arg1of
                "matchscrut", "matcharm", "return", "index", "indexee", "structarg", "variantarg", "assign", "assignop",
                "idxassign", "idxassigni", "fldassign", "concat", "block", "lambda", "cmp", "andrhs", "second", "first">>
 \* positions combined pairwise in the thorough tier
-CorePositions == <<"stmt", "let", "left", "right", "deep", "arg2of3", "receiver", "tuple", "array", "nested", "for", "while",
-                   "ifcond", "matchscrut", "matcharm", "index", "structarg", "assignop", "idxassign", "block", "lambda">>
+CorePositions == <<"stmt", "let", "right", "deep", "arg2of3", "receiver", "tuple", "array", "nested", "for", "while",
+                   "matchscrut", "structarg", "assignop", "lambda">>
 
 \* PosOf(pos, n, op, car, g) = [ss, v]: the statements (names suffixed by n, source tags 10n + ..) and the int result expression;
 \* g is the expression that decides success of the operand of interest
